@@ -21,7 +21,7 @@ def main():
         "hooks": {
             "guard": "verif",
             "enable": "every check builds the harness against /repo with: go test -tags verif -vet=off -overlay <overlay.json generated from harness/overlay> (overlay files only add accessors to repo packages at compile time; committed hooks are guarded by //go:build verif)",
-            "baseline_off_cmd": "cd /repo && GOFLAGS=-mod=mod go test -vet=off -count=1 -timeout 25m ./... && cd tars/tools/tars2go && GOFLAGS=-mod=mod go test -vet=off -count=1 ./...",
+            "baseline_off_cmd": "for m in . contrib/log; do (cd /repo/$m && GOFLAGS=-mod=mod GOPROXY=off GOSUMDB=off go test -vet=off -count=1 -timeout 25m ./...); done",
             "source_commits": json.load(open(os.path.join(HERE, "hook_commits.json"))) if os.path.exists(os.path.join(HERE, "hook_commits.json")) else [],
             "add_only": True,
         },
